@@ -61,3 +61,13 @@ func init() {
 		Assumes:    []string{"go/cfg control flow", "a receive loop over the item channel until close (drain) lets every pending send complete"},
 	})
 }
+
+func init() {
+	register(&propSpec{
+		ID:    "C03",
+		Rules: []func(*Ctx){ruleR03a, ruleR03b, ruleR03c, ruleR03d},
+		Explain: "R03a: evalPrint is evaluated (finite-domain, AST) for every autoescape mode x cancel-flag value: unless the mode is off or a directive cancels, every completing path writes through the escaper and none writes raw; R03b: every cancelling PrintDirectives entry is in the language's list, and the HTML-producing / re-encoding ones return only data that passed their escaper (SSA taint from the value parameter to every return); R03c: the escaper's table covers the five characters with references that decode back and contain none of them; R03d: parseAutoescape yields the off mode only for \"false\".",
+		NotDecided: "index arithmetic inside the escaper loop (which byte ranges are copied); user-registered directives; contextual (attribute/JS/URI-aware) escaping, which this implementation does not provide.",
+		Assumes:    []string{"text/template.HTMLEscapeString, net/url.QueryEscape, text/template.JSEscapeString and encoding/json.Marshal are correct encoders"},
+	})
+}
